@@ -25,9 +25,13 @@ def set_tier(tier):
     if tier == 'thorough':
         Budget.z3_ms = int(os.environ.get('PV_Z3_MS', 120000))
         Budget.samples = 400
+        Budget.thr_ms = Budget.z3_ms
+        Budget.standin = 40
     else:
         Budget.z3_ms = int(os.environ.get('PV_Z3_MS', 20000))
         Budget.samples = 60
+        Budget.thr_ms = 5000
+        Budget.standin = 4
 
 
 def run_job(args):
@@ -130,6 +134,7 @@ def _domain_obligations(ck, ctx):
         t = time.time()
         s2 = z3.Solver()
         s2.set('timeout', Budget.z3_ms)
+        s2._pv_timeout = Budget.z3_ms
         for f in ctx.facts[:nfacts]:      # facts known when the operation was executed
             s2.add(f)
         for f in ctx.assume:
